@@ -17,7 +17,11 @@ CHECKS = {
  'C12': ('relational arithmetic laws (Num.tla) judged by TLC on calls recorded from Fixed and Rational', '7 C12'),
  'C13': ('comparison law (Num.tla) on recorded Guarded calls; SameHistory guard0/fixed and QuasiDiff guarded/rational pairs (Pairs.tla)', '7 C13'),
  'C14': ('printing law PrintLaw (Num.tla) judged by TLC on str() of recorded values', '7 C14'),
+ 'C15': ('reader specification Blt.tla (Tokenize + Parse) vs the real ElectionProfile on well-formed renderings with the election they denote (TraceBlt.tla)', '7 C15'),
+ 'C16': ('totality / ValidProfile of the reader specification Blt.tla judged by TLC on fuzzed texts read by the real code (TraceBlt.tla)', '7 C16'),
  'C17': ('SameHistory relation on perturbed-option pairs of statutory rules (Pairs.tla)', '7 C17'),
+ 'C19': ('abstract record/interrupt model Interrupt.tla checked exhaustively; crash-point records of the real code judged by TraceInterrupt.tla', '7 C19'),
+ 'C20': ('relation C20 of Pairs.tla on (after-history, fresh-interpreter) trace pairs with byte-equality observations', '7 C20'),
  'C18': ('record-consistency predicates of Props.tla judged by TLC on recorded traces', '7 C18'),
 }
 NA = {}
